@@ -133,7 +133,9 @@ fn run_c04(t: &mut Tape, _tier: Tier) -> RunOut {
     mix.logical_kinds = vec!["sig-digit", "cred-region"];
     mix.max_logical = 1;
     mix.logical_p10 = 1;
-    mix.prov_pending = 0;
+    // the key store may be slow, unready or down: what a stale request is told does not depend on it
+    mix.prov_pending = 2;
+    mix.prov_error_one_in = 6;
     let mut j = |cx: &DeliveryCtx, out: &mut RunOut| judge_c04(cx, out);
     run_world(t, &mix, &mut j)
 }
@@ -143,7 +145,7 @@ fn run_c04(t: &mut Tape, _tier: Tier) -> RunOut {
 // ---------------------------------------------------------------------------------------------
 fn run_c05(t: &mut Tape, _tier: Tier) -> RunOut {
     let mut mix = Mix::base();
-    mix.defect_kinds = vec!["inject-required-header", "unsign-required", "unsign-host", "signed-name-case"];
+    mix.defect_kinds = vec!["inject-required-header", "unsign-required", "unsign-host", "signed-name-case", "empty-signedheaders"];
     mix.max_defects = 1;
     mix.defect_p10 = 5;
     mix.logical_kinds = vec!["hdr-add-new", "hdr-del"];
@@ -162,7 +164,7 @@ fn run_c05(t: &mut Tape, _tier: Tier) -> RunOut {
 // ---------------------------------------------------------------------------------------------
 fn run_c11(t: &mut Tape, _tier: Tier) -> RunOut {
     let mut mix = Mix::base();
-    mix.logical_kinds = vec!["hdr-change-value", "hdr-add-value", "hdr-del", "hdr-swap-values", "hdr-add-new"];
+    mix.logical_kinds = vec!["hdr-change-value", "hdr-add-value", "hdr-del", "hdr-swap-values", "hdr-add-new", "hdr-dup-content-type", "hdr-space-tab"];
     mix.max_logical = 2;
     mix.logical_p10 = 7;
     mix.req.max_headers = 8;
@@ -256,7 +258,7 @@ fn run_c15(t: &mut Tape, _tier: Tier) -> RunOut {
     let mut mix = Mix::base();
     mix.max_accounts = 3;
     mix.req.max_headers = 8;
-    mix.logical_kinds = vec!["hdr-add-new", "hdr-add-value"];
+    mix.logical_kinds = vec!["hdr-add-new", "hdr-add-value", "dup-auth-after", "dup-token-after"];
     mix.max_logical = 2;
     mix.logical_p10 = 3;
     let mut j = |cx: &DeliveryCtx, out: &mut RunOut| judge_c15(cx, out);
